@@ -73,13 +73,13 @@ pub fn brotli_bytes(data: &[u8]) -> Vec<u8> {
   out
 }
 
-fn control_block() -> Vec<u8> {
+pub fn control_block() -> Vec<u8> {
   let mut cb = vec![0xc0];
   cb.extend([0x02u8; 32]);
   cb
 }
 
-fn push(builder: script::Builder, bytes: &[u8]) -> script::Builder {
+pub fn push(builder: script::Builder, bytes: &[u8]) -> script::Builder {
   let pb: &script::PushBytes = bytes.try_into().unwrap();
   builder.push_slice(pb)
 }
